@@ -936,6 +936,17 @@ def gen_c14(rng, tier):
                     q = struct.pack('>HHHHHH', rng.u16(), 0x0100, 2 if extra else 1, 0, 0, 0) + qs
                     ops.append(('F', w.udp_frame(False, rng.u16() | 1024, dport, q)))
     cases.append(acase(w, ops, ['dns-type-class-port-sweep']))
+    # many questions: answers around the usual size limits (512, 1232, 1280, 1452, 1472, 1500 bytes) and beyond
+    ops = []
+    for nm in (b'\x07example\x03com\x00', b'\x01a\x00'):
+        per = 2 * len(nm) + 4 + 14
+        for lim in (512, 1232, 1280, 1452, 1472, 1500, 2048, 4000):
+            for d in (-1, 0, 1):
+                nq = max(1, min((lim - 12) // per + d, 3400 // (len(nm) + 4)))
+                q = struct.pack('>HHHHHH', rng.u16(), 0x0100, nq, 0, 0, 0) + (nm + struct.pack('>HH', 1, 1)) * nq
+                ops.append(('F', w.udp_frame(False, rng.u16() | 1024, 53, q)))
+                ops.append(app_op(rng, w, q, tcp=False, v6=False))
+    cases.append(acase(w, ops, ['dns-many-questions']))
     return cases
 
 
@@ -1563,7 +1574,7 @@ def explore_c11(prop, pd, tier, rng, corpus_cases):
     nflow = [0]
     isns = [5, 5, 5, 0x7fffffff - 20, 0x80000000 - 3, 0xffffffff - 20, 0xfffffffd, 0x7fffffff - 8000, 0]
 
-    def flow_case(s, cuts, tag, acks=False):
+    def flow_case(s, cuts, tag, acks=False, pad=False):
         sport[0] = (sport[0] + 1) % 60000 + 2000
         frames = []
         skip = set()
@@ -1581,6 +1592,8 @@ def explore_c11(prop, pd, tier, rng, corpus_cases):
                     skip.add(len(frames))
                     frames.append(w.tcp_frame(False, sport[0], 80, seq, (ck + 1) & 0xffffffff, 0x10))
             pos = cpos
+        if pad:
+            frames = pad60(frames)       # as delivered by a NIC: frames below the Ethernet minimum are zero-padded to 60 bytes
         c = case(w, frames, [tag])
         c['stream'], c['cuts'], c['skip'] = s, tuple(cuts), skip
         return c
@@ -1604,6 +1617,9 @@ def explore_c11(prop, pd, tier, rng, corpus_cases):
             g['segs'].append(flow_case(s, cs, 'cuts%d' % len(cs)))
         for cs in cutsets[::7][:40]:
             g['segs'].append(flow_case(s, cs, 'cuts%d-acks' % len(cs), acks=True))
+        small = [cs for cs in cutsets if min(b - a for a, b in zip((0,) + cs, cs + (len(s),))) <= 5]
+        for cs in small[:: max(1, len(small) // 60)][:70]:
+            g['segs'].append(flow_case(s, cs, 'cuts%d-padded' % len(cs), pad=True))
         groups.append(g)
         cases += [g['whole']] + g['prefixes'] + g['segs']
     # large requests (complete exactly at their last byte): MSS-sized segments, cuts around power-of-two
@@ -1723,6 +1739,15 @@ def explore_c19(prop, pd, tier, rng, corpus_cases):
             kind, fault = 'stun', 'classic'
             pl = rng.choice([b'\x00\x01\x00\x00' + tid,
                              b'\x00\x01\x00\x08' + tid + b'\x00\x03\x00\x04' + struct.pack('>I', rng.choice([0, 2, 4, 6]))])
+        if gi % 4 == 1:
+            # requests whose answer grows with the request (DNS: every question echoed + one record each): answer sizes around
+            # 1232 / 1280 / 1452 / 1472 / 1500 bytes and far beyond
+            kind, fault = 'dns', 'big-answer'
+            nm = rng.choice([b'\x07example\x03com\x00', b'\x01a\x00', b''.join(bytes([63]) + bytes(0x61 + rng.below(26) for _ in range(63)) for _ in range(3)) + b'\x00'])
+            per = 2 * len(nm) + 4 + 14
+            nq = rng.choice([(lim - 12) // per + d for lim in (1232, 1280, 1452, 1472, 1500) for d in (-1, 0, 1)] + [40, 100]) if len(nm) < 100 else rng.choice([2, 3, 4, 5, 6])
+            nq = max(1, min(nq, 3500 // (len(nm) + 4)))
+            pl = struct.pack('>HHHHHH', rng.u16(), 0x0100, nq, 0, 0, 0) + (nm + struct.pack('>HH', 1, 1)) * nq
         variants = []
         for v6 in (False, True):
             s_, d_ = w.addrs(v6)
